@@ -18,8 +18,8 @@ TECHNIQUE = ('Hypothesis property-based testing of limit_df, limit_signal, split
              'selection oracles (subsequence, must-contain / must-not-contain sets, uniform sample shift, value identity, label of '
              'origin), on synthetic tables of both centrings and on tables from generated signals')
 LEVEL_TEXT = ('Generated-input search: 5k limit_df cases, 3k limit_signal cases, 2k split/drop cases, 2k flatten cases (quick); 100k / '
-              '60k / 30k / 40k (thorough). Limits are k/fs with k on a cycle boundary, strictly between, outside, or omitted; boundary '
-              'coincidences are asserted only when (k/fs)*fs == k in floating point, otherwise with a one-sample margin.')
+              '60k / 30k / 40k (thorough). Limits are k/fs with k on a cycle boundary, strictly between, outside, or omitted; the window '
+              'membership of a cycle is evaluated in seconds (sample / fs against the limits), exactly as the statement reads.')
 RULE = ('limit_df: synthetic tables (1..25 rows, both centrings, consistency or amplitude columns; row labels fresh / offset / repeated as after concat / reversed) and 1/8 '
         'real tables; fs from a list including 100 and 441; start/stop each None / sample of a side extremum / arbitrary sample / beyond '
         'the table, start <= stop; reset_indices both. Oracle: rows are a subsequence (identified by their unique closing extremum), '
@@ -142,20 +142,20 @@ def check_limit_df(case, rec):
                     raise Violation('limit_df:feature-value-changed', 'column %s: %s' % (c, ref.first_diff(a, b)))
         if not case['reset'] and delta != 0:
             raise Violation('limit_df:shifted-without-reset', 'offset %d' % delta)
-        if case['reset'] and exact_s and delta != (ks or 0):
+        if case['reset'] and delta != (ks or 0):
             raise Violation('limit_df:reset-offset', 'offset %d, window starts at sample %d' % (delta, ks or 0))
     else:
         idx = []
     got = set(idx)
-    s_in = -np.inf if ks is None else (ks if exact_s else ks + 1)
-    e_in = np.inf if ke is None else (ke if exact_e else ke - 1)
-    s_out = -np.inf if ks is None else (ks if exact_s else ks - 1)
-    e_out = np.inf if ke is None else (ke if exact_e else ke + 1)
+    # the statement, evaluated in seconds exactly as a caller computes cycle times (sample / fs)
+    t_last, t_next = last0 / fs, next0 / fs
     for i in range(len(keep)):
-        if last0[i] >= s_in and next0[i] <= e_in and i not in got:
+        inside = (start is None or t_last[i] >= start) and (stop is None or t_next[i] <= stop)
+        outside = (start is not None and t_next[i] < start) or (stop is not None and t_last[i] > stop)
+        if inside and i not in got:
             raise Violation('limit_df:cycle-inside-window-missing', 'cycle [%d,%d] window [%s,%s] samples (fs=%s, centre=%s)' % (
                 last0[i], next0[i], ks, ke, fs, center))
-        if (next0[i] < s_out or last0[i] > e_out) and i in got:
+        if outside and i in got:
             raise Violation('limit_df:cycle-outside-window-kept', 'cycle [%d,%d] window [%s,%s] samples' % (last0[i], next0[i], ks, ke))
     on_boundary = (ks is not None and ks in set(last0.tolist())) or (ke is not None and ke in set(next0.tolist()))
     rec.label('table:' + case['table']['kind'], 'center:' + center, 'start:%s' % ('none' if ks is None else case['start'][0]),
